@@ -372,13 +372,13 @@ type Engine struct {
 	Shutdowns int32
 	Ticks     int32
 
-	h      *handler
-	booted chan struct{}
-	done   chan error
-	cli    *gnet.Client
-	ln     net.Listener // client side: the plain peer listener
-	dir    string
-	connMu sync.Mutex
+	h       *handler
+	booted  chan struct{}
+	done    chan error
+	cli     *gnet.Client
+	ln      net.Listener // client side: the plain peer listener
+	dir     string
+	connMu  sync.Mutex
 	stopped bool
 }
 
